@@ -75,6 +75,22 @@ func tailStr(s string, n int) string {
 // for a process that died with a Go panic / fatal error, production-build:<class>
 // for a problem the episode judged itself.
 func RunEpisodes(r *ev.Result, b run.Batch, seed int64, scenarios []string) {
+	runEpisodes(r, b, seed, scenarios, "")
+}
+
+// RunLife runs n "life" episodes (lib/prodwt/life.go: one short life of a
+// production-build server at the real clock, judged against a slice of several
+// properties) and reports the problems that belong to property prop; problems
+// of other properties are left to their own checks (counted only).
+func RunLife(r *ev.Result, b run.Batch, seed int64, prop string, n int) {
+	var sc []string
+	for i := 0; i < n; i++ {
+		sc = append(sc, "life")
+	}
+	runEpisodes(r, b, seed, sc, prop+":")
+}
+
+func runEpisodes(r *ev.Result, b run.Batch, seed int64, scenarios []string, only string) {
 	bin, err := Build()
 	if err != nil {
 		r.Inconc(err.Error())
@@ -150,15 +166,27 @@ func RunEpisodes(r *ev.Result, b run.Batch, seed int64, scenarios []string) {
 		case "held":
 		case "violated":
 			ps, _ := result["problems"].([]interface{})
+			mine := 0
 			for _, p := range ps {
 				txt := fmt.Sprint(p)
+				if only != "" {
+					// "C02:equivocation-not-banned: ..." - class = property id + first word
+					if !strings.HasPrefix(txt, only) {
+						r.Count("prodwt.life_problems_left_to_other_checks", 1)
+						continue
+					}
+					txt = txt[len(only):]
+				}
+				mine++
 				class := txt
 				if j := strings.Index(txt, ":"); j > 0 {
 					class = txt[:j]
 				}
 				r.Violationf("production-build:"+class, replay, "scenario %s: %s", sc, txt)
 			}
-			continue
+			if mine > 0 || only == "" {
+				continue
+			}
 		default:
 			r.Inconc(fmt.Sprintf("production-build episode %s: %v", sc, result["why"]))
 			continue
@@ -169,6 +197,18 @@ func RunEpisodes(r *ev.Result, b run.Batch, seed int64, scenarios []string) {
 		}
 		r.Count("prodwt.episodes", 1)
 		r.Count("prodwt.scenario."+sc, 1)
+		if sc == "life" {
+			for k, v := range result {
+				if f, ok := v.(float64); ok {
+					r.Count("prodwt.life."+k, int64(f))
+				}
+			}
+			r.Nontrivial(fmt.Sprintf("prodwt/life/%d", es))
+			if i == 0 {
+				r.Sample(map[string]interface{}{"production_build_episode": sc, "result": result})
+			}
+			continue
+		}
 		r.Count("prodwt.bans_during_week_job", num("bans"))
 		r.Count("prodwt.week_data_requests", num("week_requests"))
 		r.Count("prodwt.watttime_logins", num("logins"))
